@@ -40,7 +40,7 @@ def counts(tier):
 
 def generate(rng, n, tier):
     nseeds = 8 if tier == "quick" else 64
-    nscripts = 120 if tier == "quick" else 480
+    nscripts = 160 if tier == "quick" else 520
     yield {"kind": "hashseed", "seeds": list(range(1, nseeds + 1)), "nscripts": nscripts, "gseed": rng.randrange(10 ** 9)}
     yield {"kind": "hashseed-set-arg"}
     for i in range(n):
@@ -206,6 +206,23 @@ def hashseed(case, res):
             "q = Query.from_(T('t')).select('a').join(T('u')).using(%s)" % lit,
             "q = ClickHouseQuery.from_(T('t')).select('a').limit_by(2, %s)" % lit,
             "q = Query.from_(T('t')).select(fn.Coalesce(%s)).rollup(%s)" % (", ".join("T('t').%s" % k for k in ks), ", ".join("T('t').%s" % k for k in ks)),
+        ]
+    # every accumulating call repeated four or five times with distinct arguments (a de-duplication or re-ordering through a
+    # hash-ordered container shows in the order of the rendered items)
+    for Q in ("Query", "MySQLQuery", "PostgreSQLQuery"):
+        fixed += [
+            "q = %s" % "".join([Q] + [".with_(%s.from_(T('s%d')).select('a'), %r)" % (Q, i, n) for i, n in enumerate(names)]) + ".from_(AliasedQuery('alpha')).select('a')",
+            "q = %s.from_(T('t'))" % Q + "".join(".from_(T(%r))" % n for n in names) + ".select('a')",
+            "q = %s.from_(T('t'))" % Q + "".join(".join(T(%r)).on(T('t').a == T(%r).a)" % (n, n) for n in names) + ".select(T('t').a)",
+            "q = %s.from_(T('t'))" % Q + "".join(".select(%r)" % n for n in names) + "".join(".groupby(%r)" % n for n in names) + "".join(".orderby(%r)" % n for n in reversed(names)),
+            "q = %s.from_(T('t')).select('a')" % Q + "".join(".where(F(%r) == %d)" % (n, i) for i, n in enumerate(names)) + "".join(".having(F(%r) > %d)" % (n, i) for i, n in enumerate(names)),
+            "q = %s.update(T('t'))" % Q + "".join(".set(%r, %d)" % (n, i) for i, n in enumerate(names)),
+            "q = %s.into(T('t'))" % Q + "".join(".columns(%r)" % n for n in names) + ".insert(1, 2, 3, 4, 5).insert(6, 7, 8, 9, 10)",
+            "q = %s.from_(T('t')).select('a')" % Q + "".join(".union(%s.from_(T(%r)).select('a'))" % (Q, n) for n in names),
+            "q = Query.create_table('nt')" + "".join(".columns(Column(%r, 'INT'))" % n for n in names) + "".join(".unique(%r)" % n for n in names),
+            "q = Case()" + "".join(".when(F(%r) == %d, %r)" % (n, i, n) for i, n in enumerate(names)) + ".else_('none')",
+            "q = fn.Sum(F('x'))" + "".join(".filter(F(%r) == %d)" % (n, i) for i, n in enumerate(names)),
+            "q = an.Rank()" + "".join(".over(F(%r))" % n for n in names) + "".join(".orderby(F(%r))" % n for n in reversed(names)),
         ]
     for s in fixed:
         scripts.append((s, "q"))
